@@ -64,3 +64,47 @@ func VerifC12ConvertRestore(chunks []any, resumeStream bool) (stored any, restor
 func VerifC12IsNilChunk(v any) bool {
 	return v != nil && reflect.TypeOf(v).PkgPath() == reflect.TypeOf(checkpoint{}).PkgPath() && reflect.TypeOf(v).Name() == "nilChunk"
 }
+
+// VerifC12ConvertRestoreValue: the same for a run without streams that is interrupted while val is
+// the pending input (convertCheckPoint without streams), resumed through Stream or through Invoke.
+func VerifC12ConvertRestoreValue(val any, resumeStream bool) (stored any, restored []any, value any, err error) {
+	pairs := map[string]streamConvertPair{"n": defaultStreamConvertPair[any]()}
+	st := &verifC12Store{m: map[string][]byte{}}
+	c := newCheckPointer(pairs, pairs, st)
+	ctx := context.Background()
+	cp := &checkpoint{Inputs: map[string]any{"n": val}}
+	if err = c.convertCheckPoint(cp, false); err != nil {
+		return nil, nil, nil, err
+	}
+	stored = cp.Inputs["n"]
+	if err = c.set(ctx, "a", cp); err != nil {
+		return stored, nil, nil, err
+	}
+	got, _, err := c.get(ctx, "a")
+	if err != nil {
+		return stored, nil, nil, err
+	}
+	if err = c.restoreCheckPoint(got, resumeStream); err != nil {
+		return stored, nil, nil, err
+	}
+	if !resumeStream {
+		return stored, nil, got.Inputs["n"], nil
+	}
+	sr, ok := got.Inputs["n"].(streamReader)
+	if !ok {
+		panic("the restored pending input is not a stream")
+	}
+	asr := sr.toAnyStreamReader()
+	defer asr.Close()
+	restored = []any{}
+	for {
+		ch, e := asr.Recv()
+		if e == io.EOF {
+			return stored, restored, nil, nil
+		}
+		if e != nil {
+			return stored, restored, nil, e
+		}
+		restored = append(restored, ch)
+	}
+}
